@@ -199,14 +199,36 @@ def _run_lines(cmd, text, timeout=600, env=None):
     return p.returncode, p.stdout.splitlines(), p.stderr
 
 
-def run_cases(model, cases, impl_env=None, spec_needs_impl=False, timeout=1200):
+def run_cases(model, cases, impl_env=None, spec_needs_impl=False, timeout=1200, jobs=1):
     """run all cases through implementation, model and spec oracle; returns per case dict"""
     text = "".join("# case %s\n%s\n" % (c.name, "\n".join(c.ops)) for c in cases)
     nlines = sum(len(c.ops) + 1 for c in cases)
     env = dict(ENV)
     if impl_env:
         env.update(impl_env)
-    rc_i, impl, err_i = _run_lines([HARNESS, model], text, timeout, env)
+    if jobs > 1 and len(cases) >= 2 * jobs:
+        # shard the implementation run over several harness processes (cases are independent)
+        from concurrent.futures import ThreadPoolExecutor
+        shards = [cases[i::jobs] for i in range(jobs)]
+        texts = ["".join("# case %s\n%s\n" % (c.name, "\n".join(c.ops)) for c in sh) for sh in shards]
+        with ThreadPoolExecutor(max_workers=jobs) as ex:
+            outs = list(ex.map(lambda t: _run_lines([HARNESS, model], t, timeout, env), texts))
+        per_case = {}
+        rc_i, err_i = 0, ""
+        for sh, (rc, lines, err) in zip(shards, outs):
+            rc_i = rc_i or rc
+            err_i += err[-500:]
+            pos = 0
+            for c in sh:
+                n = len(c.ops) + 1
+                per_case[id(c)] = lines[pos:pos + n]
+                pos += n
+        impl = []
+        for c in cases:
+            got = per_case.get(id(c), [])
+            impl.extend(got + ["<process died>"] * (len(c.ops) + 1 - len(got)) if len(got) < len(c.ops) + 1 else got)
+    else:
+        rc_i, impl, err_i = _run_lines([HARNESS, model], text, timeout, env)
     rc_m, mod, err_m = _run_lines([DRIVER, model], text, timeout)
     if spec_needs_impl:
         # interleave: op line, then "> impl answer"
